@@ -208,6 +208,12 @@ func c11Run(r *ev.Run, st *Stack, g *rng.R, caseID string, cfg c11Cfg, prop stri
 	}
 	var pmu sync.Mutex
 	var pend []pendingAsk
+	type lateBuf struct {
+		buf []byte
+		det map[string]any
+	}
+	var lateMu sync.Mutex
+	var late []lateBuf
 	for a := 0; a < cfg.askers; a++ {
 		asker := a % n
 		lg := g.Fork()
@@ -293,6 +299,16 @@ func c11Run(r *ev.Run, st *Stack, g *rng.R, caseID string, cfg c11Cfg, prop stri
 				}
 				if err != nil {
 					nErr.Add(1)
+					// the call is over: the response buffer is the caller's again. Refill it and look again later: a reply that
+					// was being copied when the call gave up must not land in it afterwards.
+					if len(resp) > 0 {
+						for j := range resp {
+							resp[j] = 0xC3
+						}
+						lateMu.Lock()
+						late = append(late, lateBuf{resp, det(nil)})
+						lateMu.Unlock()
+					}
 					continue
 				}
 				nOK.Add(1)
@@ -408,6 +424,20 @@ func c11Run(r *ev.Run, st *Stack, g *rng.R, caseID string, cfg c11Cfg, prop stri
 	} else if v == gor.Slow {
 		r.Inconclusive("c11 askers slow on " + st.Name)
 	}
+	// response buffers of failed asks must still hold what the caller put there after the call returned
+	time.Sleep(20 * time.Millisecond)
+	lateMu.Lock()
+	for _, lb := range late {
+		for j, c := range lb.buf {
+			if c != 0xC3 {
+				lb.det["offset"], lb.det["buf_len"] = j, len(lb.buf)
+				w.viol("response-buffer-written-after-return", "Ask returned an error, the caller reused its response buffer, and the library wrote into it afterwards", lb.det)
+				break
+			}
+		}
+	}
+	r.Count("failed_ask_buffers_watched", int64(len(late)))
+	lateMu.Unlock()
 	scancel()
 	cd := make(chan struct{})
 	go func() { st.CloseAll(); close(cd) }()
@@ -444,7 +474,7 @@ func askStacks() []stackFactory {
 }
 
 func runC11(r *ev.Run) {
-	r.Rule = "per ask-capable stack: 3 nodes (two serve with 1-4 ServeAsk loops, one never serves), 2-16 concurrent askers, requests 18..MTU bytes (unique, self-describing), handlers {derived response, negative, slow, response longer than the asker's buffer}, contexts {live, pre-cancelled, deadline, cancelled soon}, optional Close of a server mid-run; a successful Ask must return exactly the bytes one non-negative invocation for that very request produced (responses are derived from request id, invocation number and a secret), handlers must see the request bytes and the asker's address; askers whose context ended before any handler began must not stay parked. non-trivial = success while >=2 handler invocations overlapped at a server; distinct = (stack, request length class, behaviour)"
+	r.Rule = "per ask-capable stack: 3 nodes (two serve with 1-4 ServeAsk loops, one never serves), 2-16 concurrent askers, requests 18..MTU bytes (unique, self-describing), handlers {derived response, negative, slow, response longer than the asker's buffer}, contexts {live, pre-cancelled, deadline, cancelled soon}, optional Close of a server mid-run; a successful Ask must return exactly the bytes one non-negative invocation for that very request produced (responses are derived from request id, invocation number and a secret), handlers must see the request bytes and the asker's address; askers whose context ended before any handler began must not stay parked; response buffers of failed asks are refilled by the caller and must stay untouched; cancel-races-reply family: large responses (up to 1 MiB, multi-part) with the cancellation drawn around the measured round-trip time. non-trivial = success while >=2 handler invocations overlapped at a server; distinct = (stack, request length class, behaviour)"
 	g := rng.New(r.Seed, "C11", fmt.Sprint(r.Batch))
 	idx := 0
 	for _, sf := range askStacks() {
@@ -479,4 +509,5 @@ func runC11(r *ev.Run) {
 			}
 		}
 	}
+	runCancelRacesReply(r, "C11")
 }
